@@ -19,6 +19,8 @@ var skelIgnoreCalls = map[string]bool{
 	"fmt.Errorf": true, "fmt.Sprintf": true, "context.WithoutCancel": true, "len": true, "int64": true, "make": true,
 	"errors.New": true, "errors.E": true, "time.Now": true, "context.Log": true, "append": true, "int": true,
 	"log.Fatalf": true, "Error": true, "Log.Error": true, "e.Error": true, "err.Error": true, "errors.Is": true,
+	// logger methods reached through context.Log(ctx).X(...) and the like: logging is not behaviour the models mirror
+	"Info": true, "Warn": true, "Debug": true, "Infof": true, "Warnf": true, "Debugf": true, "Errorf": true, "Printf": true, "Println": true,
 }
 
 var skelTrackedFields = map[string]bool{
